@@ -61,6 +61,7 @@ func runC05(c *Collector, r *Rng, thorough bool) {
 	}
 	c05GovernedGrid(c)
 	c05IVPairs(c)
+	c05BigIntNeighbours(c)
 	for _, kind := range kinds {
 		for i := 0; i < n; i++ {
 			cfg := defaultCfg
@@ -193,7 +194,8 @@ func c05GovernedGrid(c *Collector) {
 			wArr(-1), wArr(-1, wInt(1, -1)), wArr(-1, wInt(4, -1)), wArr(-1, wNull()), wArr(-1, wBstr([]byte{1}, -1)), wArr(-1, wInt(1, -1), wInt(4, -1)),
 			wMap(-1), wMap(-1, wInt(1, -1), wInt(4, -1)), wFloat16bits(0x3c00), wFloat64(1.5),
 			wArr(-1, wBstr(nil, -1), wMap(-1), wBstr([]byte{1}, -1)),
-			wSimple(0), wSimple(16), wSimple(19), wSimple(32), wSimple(255)}
+			wSimple(0), wSimple(16), wSimple(19), wSimple(32), wSimple(255),
+			&W{Maj: 0, Width: 8, Val: 1 << 63}, &W{Maj: 0, Width: 8, Val: 1<<64 - 1}, &W{Maj: 1, Width: 8, Val: 1 << 63}, wTag(2, -1, wBstr([]byte{1, 0, 0, 0, 0, 0, 0, 0, 0}, -1))}
 	}
 	for _, label := range []int64{1, 2, 3, 4, 5, 6, 7, 9, 11, 12, 16} {
 		for si := range shapes() {
@@ -285,6 +287,60 @@ func c05IVPairs(c *Collector) {
 				run("DSignMsg", wTag(98, -1, wArr(-1, wBstr(nil, -1), wMap(-1), wBstr([]byte("p"), -1), wArr(-1, wArr(-1, pb, ub, wBstr([]byte{1}, -1))))))
 				pb, ub = mk()
 				run("DSign1", wTag(18, -1, wArr(-1, wBstr(nil, -1), wMap(-1, wInt(11, -1), wArr(-1, pb, ub, wBstr([]byte{1}, -1))), wBstr([]byte("p"), -1), wBstr([]byte{1}, -1))))
+			}
+		}
+	}
+}
+
+// c05BigIntNeighbours: an integer beyond int64 as the value of a free parameter, next to a parameter that breaks a rule
+// (kid as an integer, IV with Partial IV, content type as a byte string) or to a nested map with a duplicate key: the
+// first fault the CBOR library reports must not hide the others. In the protected and the unprotected bucket, four layers.
+func c05BigIntNeighbours(c *Collector) {
+	bigs := []*W{{Maj: 0, Width: 8, Val: 1 << 63}, {Maj: 0, Width: 8, Val: 1<<64 - 1}, {Maj: 1, Width: 8, Val: 1 << 63}}
+	faults := [][]*W{
+		{wInt(4, -1), wInt(1, -1)},
+		{wInt(5, -1), wBstr([]byte{1}, -1), wInt(6, -1), wBstr([]byte{1}, -1)},
+		{wInt(3, -1), wBstr([]byte{1}, -1)},
+		{wInt(111, -1), wMap(-1, wInt(1, -1), wInt(1, -1), wInt(1, -1), wInt(2, -1))},
+		{wInt(2, -1), wArr(-1, wInt(99, -1))},
+		{},
+	}
+	for _, big := range bigs {
+		for _, bigLabel := range []int64{0, 10, 1000} { // before and after the faulty parameter in encoding order
+			for fi, fault := range faults {
+				for _, protected := range []bool{true, false} {
+					mk := func() (*W, *W) {
+						kv := []*W{wInt(bigLabel, -1), big.Clone()}
+						for _, f := range fault {
+							kv = append(kv, f.Clone())
+						}
+						if protected {
+							kv = append(kv, wInt(1, -1), wInt(-7, -1))
+							return wBstr(wMap(-1, kv...).Ser(), -1), wMap(-1)
+						}
+						return wBstr(wMap(-1, wInt(1, -1), wInt(-7, -1)).Ser(), -1), wMap(-1, kv...)
+					}
+					if !protected && fi == 4 {
+						continue
+					}
+					run := func(kind string, w *W) {
+						b := w.Ser()
+						d := decodeCase(c, "bigint-neighbours", kind, b)
+						c05Oracle(c, kind, b, &d)
+					}
+					pb, ub := mk()
+					if protected {
+						run("DProt", pb)
+					} else {
+						run("DUnprot", ub)
+					}
+					pb, ub = mk()
+					run("DSign1", wTag(18, -1, wArr(-1, pb, ub, wBstr([]byte("p"), -1), wBstr([]byte{1}, -1))))
+					pb, ub = mk()
+					run("DSignMsg", wTag(98, -1, wArr(-1, wBstr(nil, -1), wMap(-1), wBstr([]byte("p"), -1), wArr(-1, wArr(-1, pb, ub, wBstr([]byte{1}, -1))))))
+					pb, ub = mk()
+					run("DSign1", wTag(18, -1, wArr(-1, wBstr(nil, -1), wMap(-1, wInt(7, -1), wArr(-1, pb, ub, wBstr([]byte{1}, -1))), wBstr([]byte("p"), -1), wBstr([]byte{1}, -1))))
+				}
 			}
 		}
 	}
